@@ -74,8 +74,10 @@ fn msg_case() -> BoxedStrategy<MsgCase> {
 }
 
 fn link_case() -> BoxedStrategy<LinkCase> {
-    (duo::link_cfg(), vec(msg_case(), 1..10)).prop_map(|(mut cfg, msgs)| {
+    (duo::link_cfg(), vec(msg_case(), 1..10), prop_oneof![3 => Just(None), 1 => prop_oneof![Just(100u64), Just(600), Just(2000), 64u64..5000].prop_map(Some)]).prop_map(|(mut cfg, msgs, mms)| {
         cfg.initiator = 0;
+        // the sending link splits a message larger than its max-message-size into several transfers
+        cfg.max_message_size = mms;
         // manual credit: the grants must be able to cover the stream (the last grant repeats)
         LinkCase { cfg, msgs }
     })
